@@ -109,6 +109,54 @@ def main():
             n = co.dims()[2]
             if r is None or r[:n] != co.acc["rc"][1]:
                 ck.violation("rc_%s.txt" % cid, dict(cases)[cid], "reduced costs returned differ from c - A^T pi", match=dict(kind="rc"))
+    # ---- correspondence: model opt_test vs QSexact_optimal_test -------------------------------
+    solved = [(cid, CaseOut(outs[cid])) for cid in outs if cid.endswith(".0")]
+    solved = [(cid, co) for cid, co in solved if co.lp_ok and co.ilp]
+    ccases, cq, cmeta = [], ["M " + M], {}
+    for cid, co in solved:
+        lp, _ = meta[cid]
+        kind, rv, st = co.last()
+        nc, m, ns = co.dims()
+        if rv == 0 and st == 1 and all(co.acc.get(k, (1,))[0] == 0 for k in ("x", "slack", "pi")):
+            vs = opttest_variants(ck.rng, co, 8 if ck.thorough() else 5)
+        else:
+            xs = [str(ck.rng.randint(-3, 3)) for _ in range(nc)]
+            ys = [str(ck.rng.randint(-2, 2)) for _ in range(m)]
+            vs = [("random", "".join(ck.rng.choice("012") for _ in range(ns)), "".join(ck.rng.choice("012") for _ in range(m)), xs, ys)]
+        for vi, (label, cs, rs, xs, ys) in enumerate(vs):
+            tid = "t%s.%d" % (cid, vi)
+            ccases.append((tid, opttest_script(tid, lp, cs, rs, xs, ys)))
+            cq.append(opttest_query(tid, co, cs, rs, xs, ys))
+            cmeta[tid] = (label, lp)
+    _, couts, ccr = run_cases("h_solve", ccases, per_case_timeout=20)
+    cans = run_model("drv_solve", "\n".join(cq) + "\n")
+    ncorr = nacc = 0
+    labels = {}
+    for tid, _scr in ccases:
+        if tid not in couts:
+            continue
+        v, acc = parse_opttest_out(couts[tid])
+        r = cans.get(tid)
+        if v is None or r is None:
+            continue
+        ncorr += 1
+        labels[cmeta[tid][0]] = labels.get(cmeta[tid][0], 0) + 1
+        model_some = r[0] == "some"
+        agree = (v == 1) == model_some
+        if agree and model_some:
+            nacc += 1
+            parts = [p_.split() for p_ in " ".join(r[1:]).split("|")]
+            exp = [acc.get("objval", (1, []))[1], acc.get("x", (1, []))[1], acc.get("pi", (1, []))[1], acc.get("slack", (1, []))[1], acc.get("rc", (1, []))[1]]
+            agree = parts == exp
+        ck.count(("corr", tid, repr(cmeta[tid][1]["rows"])), nontrivial=True)
+        if not agree:
+            # correspondence break: the property-level question is whether the real test accepted a non-certificate
+            scr = dict(ccases)[tid]
+            ck.violation("corr_opttest_%s.txt" % tid, scr + "\n# model answer: " + " ".join(r) + "\n# C verdict: %s cache %s" % (v, acc),
+                         "correspondence OptTest.opt_test vs QSexact_optimal_test broke (variant %s): C verdict %s, model %s" % (cmeta[tid][0], v, r[0]),
+                         no_input=not (v == 1 and not model_some), match=dict(kind="corr-opttest"))
+    ck.cov["traces_validated_against_impl"] = ncorr
+    ck.cov["corr_opttest"] = dict(cases=ncorr, accepted_by_both=nacc, variants=labels, harness_crashes=len(ccr))
     # proof obligations
     if not pr["ok"]:
         ck.violation("proof.txt", pr["log"], "proof obligation(s) of Properties_C01.v no longer check: %s" % pr["failed"],
